@@ -615,6 +615,15 @@ pub fn check_instant(c: &InstantCtx, sink: &Sink) -> bool {
 impl Model {
     /// Rebuilds the model from the (validated) on-disk state after a fault.
     /// Returns false if some archive cannot be represented (undecodable).
+    /// The archive directory was removed from outside: the window is empty, its
+    /// records are gone from the stream, bystanders below it are gone too.
+    pub fn purge_archives(&mut self) {
+        let gone: std::collections::HashSet<RecId> = self.window.values().flat_map(|c| frame::whole_ids(c)).collect();
+        self.window.clear();
+        self.others.retain(|k, _| !k.starts_with("arch/"));
+        self.stream.retain(|id| !gone.contains(id));
+    }
+
     pub fn resync(&mut self, names: &Names) -> bool {
         let tree = names.snapshot();
         let mut ok = true;
